@@ -153,6 +153,10 @@ impl Prop for C01 {
         Ok(())
     }
 
+    fn generator_counters() -> Vec<(String, u64)> {
+        vec![("payloads-with-a-checksum-byte-steered-to-1b/1a/00/01".into(), crate::gen::payload::CRC_GROUND.load(std::sync::atomic::Ordering::Relaxed))]
+    }
+
     fn to_kv(i: &Input) -> Kv {
         let mut kv = Kv::new();
         kv.put_b("payload", &i.payload).put_u("cap", i.cap as u64).put_u("extra", i.extra as u64);
